@@ -309,8 +309,13 @@ class Parser:
     #   Return: tokens to be inserted
     #
     def expand_macro(self, buf, tok, math):
-        buf.next()
-        buf.skip_space()    # for macros without arguments, even if known
+        # skip space for macros without arguments, even if known
+        # - only space from the source text as in TeX: do not cross tokens
+        #   left by an expansion, e.g. the end of an enclosing argument or
+        #   a pending language switch
+        nxt = buf.next()
+        while type(nxt) in (defs.SpaceToken, defs.CommentToken):
+            nxt = buf.next()
         if tok.txt not in self.the_macros:
             if not (math or tok.txt in self.unknowns):
                 self.unknowns.append(tok.txt)
